@@ -865,13 +865,25 @@ func readerPosition(p *Prog, r *Report, rule string) {
 				return
 			}
 			m++
-			rdr := origins(cm.Args[0])
+			// the reader itself, whether the methods take it by pointer or by value (a load of it)
+			base := func(v ssa.Value) []ssa.Value {
+				var out []ssa.Value
+				for _, o := range origins(v) {
+					if ld, ok := o.(*ssa.UnOp); ok && ld.Op == token.MUL {
+						out = append(out, origins(ld.X)...)
+					} else {
+						out = append(out, o)
+					}
+				}
+				return out
+			}
+			rdr := base(cm.Args[0])
 			for _, o := range origins(cm.Args[1]) {
 				ok := false
 				if pc, isCall := o.(*ssa.Call); isCall {
 					pcal := pc.Call.StaticCallee()
 					if pcal != nil && pcal.Name() == "Position" && recvNamed(pcal) == recvNamed(callee) && len(pc.Call.Args) == 1 {
-						for _, a := range origins(pc.Call.Args[0]) {
+						for _, a := range base(pc.Call.Args[0]) {
 							for _, b := range rdr {
 								if a == b {
 									ok = true
